@@ -772,6 +772,7 @@ static void init_case(fm_t* m, uint32_t prior, int legacy, uint32_t arg, uint64_
     }
     for (int round = 0; round < 2; round++) {
         vp_curop("init", f->id, name, round);
+        errno_noise();                 /* whatever errno holds from unrelated earlier calls must not influence an initialiser */
         vp_call(c);
         if (legacy) {
             int rc = f->linit(p, arg);
